@@ -471,6 +471,8 @@ class Engine:
             return len(v.items) > 0
         if isinstance(v, SymSeq):
             return v.length > 0
+        if isinstance(v, V.BytesV):
+            return v.length > 0
         if isinstance(v, SymSet):
             w = ctx.fresh("wit", v.elem_sort)
             x = z3.FreshConst(v.elem_sort, "x")
@@ -782,6 +784,7 @@ class Engine:
             raise EngineLimit("*args/**kwargs in a function under contract")
         ns = NS(**{("self" if (self_obj is not None and k == all_args[0].arg) else k): v for k, v in args.items()})
         ns.__dict__["ctx"] = ctx
+        ns.__dict__["old"] = snapshot_ns(ns)
         if self_obj is not None and not is_init:
             for label, inv in self.class_invariants(ctx, self_obj):
                 ctx.assume(lift_bool(inv))
@@ -790,6 +793,7 @@ class Engine:
         if res is not None and res.entry_pc is None:
             res.entry_pc = list(ctx.pc)
             res.entry_axioms = list(ctx.axioms)
+        ctx.entry_ns = ns.old
         env = Env(finfo.module, None, finfo)
         env.vars.update(args)
         outcome = None
@@ -1138,7 +1142,11 @@ class Engine:
             raise
 
     def ex_Constant(self, ctx, e, env):
-        if isinstance(e.value, (bytes, complex)) or e.value is Ellipsis:
+        if isinstance(e.value, bytes):
+            from . import bytesmodel
+
+            return bytesmodel.from_concrete(ctx, e.value)
+        if isinstance(e.value, complex) or e.value is Ellipsis:
             return V.Opaque("const")
         if isinstance(e.value, float):
             return V.FloatV(e.value)
@@ -1301,7 +1309,12 @@ class Engine:
         if isinstance(e.op, ast.Invert):
             if isinstance(v, int):
                 return ~v
-            return -v - 1
+            r = -v - 1
+            if getattr(ctx, "bitinfo", None):
+                from . import bytesmodel
+
+                bytesmodel.note_invert(ctx, v, r)
+            return r
         raise EngineLimit("unary op")
 
     def ex_BinOp(self, ctx, e, env):
@@ -1679,10 +1692,20 @@ class Engine:
             nsd["self" if (finfo.cls is not None and not finfo.is_static and params and k == params[0]) else k] = v
         ns = NS(**nsd)
         ns.__dict__["ctx"] = ctx
+        ns.__dict__["old"] = snapshot_ns(ns)
         callee = short(contract.qualname)
         for label, c in self.run_spec(ctx, lambda: contract.clauses("pre", ns)):
             ctx.oblige("%s/pre#%s#%s" % (short(ctx.func), callee, label), lift_bool(c), kind="pre")
             ctx.assume(lift_bool(c))
+        dec = getattr(contract.impl, "decreases", None)
+        if dec is not None and contract.qualname == ctx.func.split("[")[0].split("<")[0]:
+            # recursion through the function's own contract: the measure must strictly decrease and stay >= 0
+            entry_ns = getattr(ctx, "entry_ns", None)
+            if entry_ns is None:
+                raise EngineLimit("recursive call but no entry state recorded")
+            m_new = self.run_spec(ctx, dec, ns)
+            m_old = self.run_spec(ctx, dec, entry_ns)
+            ctx.oblige("%s/decreases#%s" % (short(ctx.func), callee), z3.And(m_new >= 0, m_new < m_old), kind="decreases")
         # exceptional outcomes: the callee may raise any X whose condition holds, and returns normally only if none does
         pending_raise = False
         names = list(contract.raises.items())
@@ -1716,12 +1739,35 @@ class Engine:
                     k, _ = self.field_kind(nsd["self"].cls, fname)
                     if k is not None:
                         nsd["self"].fields[fname] = ctx.fresh_kind("havoc." + fname, k)
+            # parameters that are materialised objects: `modifies_params = {"reader": ["_bit_offset"]}`
+            for pname, fnames in (getattr(contract.impl, "modifies_params", None) or {}).items():
+                po = nsd.get(pname)
+                if isinstance(po, Obj) and po.fields is not None:
+                    for fname in fnames:
+                        k, _ = self.field_kind(po.cls, fname)
+                        if k is not None:
+                            po.fields[fname] = ctx.fresh_kind("havoc.%s.%s" % (pname, fname), k)
+                elif po is not None:
+                    raise EngineLimit("callee modifies parameter %s which is not a materialised object here" % pname)
         ns.__dict__["result"] = result
         for label, c in self.run_spec(ctx, lambda: contract.clauses("post", ns)):
             ctx.assume(lift_bool(c))
         if is_init:
             for label, inv in self.class_invariants(ctx, ns.self, finfo.cls):
                 ctx.assume(lift_bool(inv))
+        else:
+            # a method of a mutable class re-establishes the class invariant of the objects it modified (proved as
+            # inv# obligations of that method)
+            touched = []
+            if contract.modifies and isinstance(nsd.get("self"), Obj) and nsd["self"].fields is not None:
+                touched.append(nsd["self"])
+            for pname in (getattr(contract.impl, "modifies_params", None) or {}):
+                if isinstance(nsd.get(pname), Obj) and nsd[pname].fields is not None:
+                    touched.append(nsd[pname])
+            for o in touched:
+                if self._is_mutable(o.cls):
+                    for label, inv in self.class_invariants(ctx, o):
+                        ctx.assume(lift_bool(inv))
         return result
 
     def havoc_init_fields(self, ctx, selfv: Obj, cls: ClassInfo):
@@ -1915,6 +1961,26 @@ def _uf_apps_on(body, r):
 
 def contract_cls(engine, contract, cls):
     return cls
+
+
+def snapshot_ns(ns):
+    """Pre-state for `s.old`: parameters as they are now; materialised (mutable) objects are copied field by field
+       (bytearray values are copied too, since they are updated in place)."""
+    out = {}
+    for k, v in ns.__dict__.items():
+        if k in ("ctx", "old", "result"):
+            continue
+        out[k] = _snap(v)
+    return NS(**out)
+
+
+def _snap(v):
+    if isinstance(v, Obj) and v.fields is not None:
+        o = Obj(v.cls, v.exact, v.ref, {n: _snap(x) for n, x in v.fields.items()}, v.ctx)
+        return o
+    if isinstance(v, V.BytesV) and v.mutable:
+        return V.BytesV(v.arr, v.length, mutable=True, view=v.view, concrete=v.concrete, fresh=v.fresh)
+    return v
 
 
 def speclib_and(*xs):
